@@ -221,6 +221,10 @@ class SymKit:
     def ttuple(self, vals):
         return tuple(vals)
 
+    def readonly(self, arr):
+        arr.setflags(write=False)
+        return arr
+
 
 class RealKit:
     sym = False
@@ -255,6 +259,10 @@ class RealKit:
     def ttuple(self, vals):
         import pandas as pd
         return tuple(pd.Timestamp(v) for v in vals)
+
+    def readonly(self, arr):
+        arr.setflags(write=False)
+        return arr
 
     def scalar(self, v):
         return v
